@@ -272,6 +272,9 @@ def jsonable_ops(ops):
 
 
 def replay(rep):
+    if rep.get('replay', {}).get('form') == 'routes':
+        from props import _estimators as E_
+        return E_.replay_routes(rep['replay'])
     r = rep['replay']
     ops = [tuple(o) for o in r['ops']]
     p, tr, bad = R.run_history(r['class'], r['data'], ops)
@@ -284,6 +287,9 @@ def run(ctx):
     import spectrum
     rng = ctx.rng
     ctx.check_theorems('Properties/C07.v')
+    # the estimate an object holds does not depend on the history that gave it its data and settings (every route of _estimators.via)
+    from props import _estimators as E_
+    E_.class_route_stream(ctx, E_.CLASSES, 'routes')
     rc, log = vlib.make_cone('Model/PsdMachineRun.vo')
     if rc != 0:
         ctx.broken.append({'theorem': 'build of Model/PsdMachineRun.v', 'where': 'Model/PsdMachineRun.v', 'log': log[-1500:]})
